@@ -253,7 +253,9 @@ def oracle (st : St) (a : AuthRes) (ad : AuthDesc) (rt : Route) (segs : List Str
             | .taHandle => allowed Spec.taPermission Option.none
             | _ => true
           | .general alts => alts.any fun p => allowed p Option.none
-          | _ => true) then [] else ["every_op_gated"])
+          | _ => true) then [] else ["every_op_gated"]) ++
+      (if rt.ops.all (fun c => (Spec.alsoRequired c.op).all fun p => allowed p Option.none) then []
+       else ["pubd_ops_need_pub_admin"])
     else []
   -- C13 unchecked_only_public / C20 refused_everywhere
   let publicOnly :=
